@@ -9,6 +9,7 @@ import (
 	"sort"
 	"strings"
 	"sync"
+	"time"
 )
 
 var devCmds = map[string]func([]string){}
@@ -250,12 +251,30 @@ func verifyAll(w *World, sp *Specs, mods *ModAnalysis, keys []string, families m
 		}
 	}
 	if len(retry) > 0 && len(retry) <= 40 {
+		// the second chance has a budget of its own: a change that really breaks many obligations must not
+		// turn the check into an hour of timeouts
+		budget := time.Duration(timeoutS*12) * time.Second
+		tRetry := time.Now()
 		for _, o := range retry {
+			if time.Since(tRetry) > budget {
+				break
+			}
 			lim := timeoutS * 4
 			if lim < 30 {
 				lim = 30
 			}
 			r2 := Solve(o, work, lim, confirm)
+			for seed := 1; seed <= 2 && r2.Status != "unsat" && (r2.Status != "sat" || r2.Reduced); seed++ {
+				solverSeed = seed
+				r3 := Solve(o, work, lim, confirm)
+				r3.Tried = append(append(r2.Tried, fmt.Sprintf("seed%d:", seed)), r3.Tried...)
+				if r3.Status == "unsat" || (r3.Status == "sat" && !r3.Reduced) {
+					r2 = r3
+				} else {
+					r2.Tried = r3.Tried
+				}
+			}
+			solverSeed = 0
 			r2.Tried = append(append([]string{}, o.Result.Tried...), append([]string{"retry:"}, r2.Tried...)...)
 			if r2.Status == "unsat" || !(o.Result.Status == "sat") {
 				o.Result = r2
